@@ -15,11 +15,35 @@ SUPPRESS = [HealthCheck.too_slow, HealthCheck.data_too_large,
             HealthCheck.large_base_example]
 
 
-def run_given(strategy, body, n_examples: int, seed: int, phases=None):
+def guarded(body, rec, pid):
+    """An exception escaping from *library* code while the oracle exercises it
+    is a finding about the library (recorded, generation continues); one
+    raised by the machinery itself stays a harness error."""
+    from .common import SRC
+    src = os.path.abspath(SRC) + os.sep
+
+    def g(case):
+        try:
+            body(case)
+        except Exception as e:
+            tb = traceback.extract_tb(e.__traceback__)
+            inner = tb[-1]
+            if os.path.abspath(inner.filename).startswith(src):
+                where = f"{os.path.basename(inner.filename)}:{inner.name}"
+                rec.violation(f"{pid}/library-exception/{type(e).__name__}@{where}", case,
+                              f"{e!r} raised by the library inside the oracle's call sequence")
+            else:
+                raise
+    return g
+
+
+def run_given(strategy, body, n_examples: int, seed: int, phases=None, rec=None, pid=None):
     """Run `body(case)` on n generated cases.  `body` records violations
     itself and must not raise for property failures (collect, don't stop)."""
     if n_examples <= 0:
         return
+    if rec is not None:
+        body = guarded(body, rec, pid or rec.pid)
 
     @hypothesis.seed(seed)
     @settings(max_examples=n_examples, database=None, deadline=None,
